@@ -28,6 +28,24 @@ type X struct {
 	// WriterRule: what the real writer stored as `date` for the template pushes, per table (binding of Window.tla's
 	// WriterDay to the code)
 	WriterObs []WriterObs
+
+	sameTrace  bool   // plant all spans into one trace (trace-by-id endpoint)
+	typeMarker bool   // plant profiles with a per-entity profile type name (ProfileTypes endpoint)
+	traceID    string // hex id of the planted trace when sameTrace
+}
+
+// traceIDs: binary trace id, binary span id, hex trace id of the k-th planted span.
+func (x *X) traceIDs(e Entity, k int) (string, string, string) {
+	tid := fmt.Sprintf("%016x%016x", fp64(e.Marker), uint64(k+1))
+	if x.sameTrace {
+		tid = fmt.Sprintf("%016x%016x", uint64(0xc13c13c13), uint64(1))
+	}
+	var btid [16]byte
+	if raw, err := hex.DecodeString(tid); err == nil {
+		copy(btid[:], raw)
+	}
+	sid := []byte{0xc1, 0x3c, 0, 0, 0, 0, byte((k + 1) >> 8), byte(k + 1)}
+	return string(btid[:]), string(sid), tid
 }
 
 type tmplTable struct {
@@ -175,7 +193,7 @@ func (x *X) learnTemplates() error {
 	w := x.W
 	// two instants: 20 minutes before and 20 minutes after a UTC midnight that is also a month boundary; in any zone
 	// other than UTC the local day of at least one of them differs from its UTC day
-	mid := time.Date(2023, 11, 1, 0, 0, 0, 0, time.UTC).UnixNano()
+	mid := time.Date(2023, 12, 1, 0, 0, 0, 0, time.UTC).UnixNano()
 	for i, ns := range []int64{mid - 20*60*1e9, mid + 20*60*1e9, mid + 12*3600*1e9} {
 		body := fmt.Sprintf(`{"streams":[{"stream":{"app":"a1","pos":"%s%d"},"values":[["%d","line %s%d"]]}]}`, tmplMarker, i, ns, tmplMarker, i)
 		if code, resp := w.Push("POST", "/loki/api/v1/push", "application/json", []byte(body), nil); code/100 != 2 {
@@ -310,7 +328,7 @@ func (x *X) plant(family string, ents []Entity, wloc *time.Location) error {
 		var srows, samples [][]any
 		for _, e := range ents {
 			fp := fp64(e.Marker)
-			lbl := map[string]string{"app": "a1", "pos": e.Marker}
+			lbl := map[string]string{"app": "a1", "pos": e.Marker, "k" + e.Marker: "1"}
 			name := ""
 			line := "line " + e.Marker
 			val := 0.0
@@ -355,16 +373,15 @@ func (x *X) plant(family string, ents []Entity, wloc *time.Location) error {
 		}
 		var trows, arows [][]any
 		for k, e := range ents {
-			tid := fmt.Sprintf("%016x%016x", fp64(e.Marker), uint64(k+1))
-			var btid [16]byte
-			if raw, err := hex.DecodeString(tid); err == nil {
-				copy(btid[:], raw)
+			sbtid, ssid, tid := x.traceIDs(e, k)
+			if x.sameTrace {
+				x.traceID = tid
 			}
-			sid := []byte{0, 0, 0, 0, 0, 0, byte(k >> 8), byte(k + 1)}
-			payload := fmt.Sprintf(`{"traceId":"%s","id":"%x","timestamp":%d,"duration":2000,"name":"%s","localEndpoint":{"serviceName":"svc"},"tags":{"pos":"%s","app":"a1"}}`,
-				tid, sid, e.TsNs/1000, e.Marker, e.Marker)
+			btid, sid := []byte(sbtid), []byte(ssid)
+			payload := fmt.Sprintf(`{"traceId":"%s","id":"%x","timestamp":%d,"duration":2000,"name":"%s","localEndpoint":{"serviceName":"svc"},"tags":{"pos":"%s","app":"a1","k%s":"1"}}`,
+				tid, sid, e.TsNs/1000, e.Marker, e.Marker, e.Marker)
 			row := append([]any{}, tt.Rows[0]...)
-			row[ci(tt.Cols, "trace_id")] = string(btid[:])
+			row[ci(tt.Cols, "trace_id")] = string(btid)
 			row[ci(tt.Cols, "span_id")] = string(sid)
 			row[ci(tt.Cols, "name")] = e.Marker
 			row[ci(tt.Cols, "timestamp_ns")] = e.TsNs
@@ -375,8 +392,8 @@ func (x *X) plant(family string, ents []Entity, wloc *time.Location) error {
 				days = []int64{writerDay(e.TsNs, "local", wloc)}
 			}
 			for _, d := range days {
-				for _, kv := range [][2]string{{"pos", e.Marker}, {"app", "a1"}, {"name", e.Marker}, {"service.name", "svc"}} {
-					arows = append(arows, []any{"", dateVal(d), kv[0], kv[1], string(btid[:]), string(sid), e.TsNs, int64(2000000)})
+				for _, kv := range [][2]string{{"pos", e.Marker}, {"app", "a1"}, {"name", e.Marker}, {"service.name", "svc"}, {"k" + e.Marker, "1"}} {
+					arows = append(arows, []any{"", dateVal(d), kv[0], kv[1], string(btid), string(sid), e.TsNs, int64(2000000)})
 				}
 			}
 		}
@@ -408,7 +425,10 @@ func (x *X) plant(family string, ents []Entity, wloc *time.Location) error {
 			}
 			row := append([]any{}, pt.Rows[0]...)
 			row[ci("timestamp_ns")] = uint64(e.TsNs)
-			row[ci("tags")] = []any{chsql.Tuple{"pos", e.Marker}, chsql.Tuple{"app", "a1"}}
+			row[ci("tags")] = []any{chsql.Tuple{"pos", e.Marker}, chsql.Tuple{"app", "a1"}, chsql.Tuple{"k" + e.Marker, "1"}}
+			if x.typeMarker {
+				row[ci("type")] = "pc" + e.Marker
+			}
 			rows = append(rows, row)
 		}
 		if err := st.Insert("profiles_input", pt.Cols, rows); err != nil {
